@@ -3,6 +3,8 @@ import OW.Driver.Date
 import OW.Driver.Kernel
 import OW.Driver.Fn
 import OW.Driver.Nd
+import OW.Driver.Wrapper
+import OW.Driver.Json
 namespace OW.Driver
 open OW.Proto
 
@@ -12,11 +14,16 @@ def dispatch (fam : String) (args : Toks) : String :=
   | "DATE" => Date.handle args
   | "K" => Kernel.handle args
   | "KSPEC" => Kernel.handle args
+  | "KSPLIT" => Kernel.handleSplit args
+  | "KHIST" => Kernel.handleHist args
+  | "W" => Wrapper.handle args
   | "ND" => Nd.handle args
   | "NDPAIR" => Nd.handlePair args
   | "NI" => Nd.handleNI args
   | "FR" => Fn.handleFR args
   | "PW" => Fn.handlePW args
+  | "JSON" => Json.handleJSON args
+  | "JSA" => Json.handleJSA args
   | _ => "bad-family"
 
 def handleLine (line : String) : String :=
